@@ -182,4 +182,24 @@ def statements (ts : List Tok) : List (List Tok) := splitTop ts 0 []
 
 def idents (ts : List Tok) : List Str := ts.filterMap fun t => match t with | .id s => some s | _ => none
 
+/-- tokens up to the `>` that closes an already opened `<` (depth 1); returns (inside, rest after `>`) -/
+def takeAngles : Nat → List Tok → List Tok → Option (List Tok × List Tok)
+  | _, _, [] => none
+  | d, acc, .p '>' :: r => if d = 1 then some (acc.reverse, r) else takeAngles (d - 1) (.p '>' :: acc) r
+  | d, acc, .p '<' :: r => takeAngles (d + 1) (.p '<' :: acc) r
+  | d, acc, t :: r => takeAngles d (t :: acc) r
+
+/-- `listen<TYPE>('name', …)`: the subscribed name with the tokens of its payload type -/
+def listenTypes : List Tok → List (Str × List Tok)
+  | [] => []
+  | t :: rest =>
+    (match t, rest with
+     | .id f, .p '<' :: r =>
+       if f = cl!"listen" then
+         match takeAngles 1 [] r with
+         | some (ty, .p '(' :: .str v :: _) => [(v, ty)]
+         | _ => []
+       else []
+     | _, _ => []) ++ listenTypes rest
+
 end Sc
